@@ -44,6 +44,9 @@ func c06Stage(parser, name string) refmodel.Stage {
 		case `json a, x="b"`:
 			return &refmodel.JSONStage{Labels: []string{"a"}, Exprs: [][2]string{{"x", "b"}}}
 		}
+		if strings.HasPrefix(name, "json k") { // json k<n>, a
+			return &refmodel.JSONStage{Labels: strings.Split(strings.TrimPrefix(name, "json "), ", ")}
+		}
 		// generic: json l1="path1", l2="path2"
 		if ms := c06ExprRe.FindAllStringSubmatch(strings.TrimPrefix(name, "json "), -1); len(ms) > 0 {
 			st := &refmodel.JSONStage{}
@@ -161,6 +164,51 @@ func (t *c06Tree) render(sb *strings.Builder, path string, leafPaths, innerPaths
 		sb.WriteByte('}')
 		*innerPaths = append(*innerPaths, path+".zz")
 	}
+}
+
+// c06SeqInput: two records through one stage instance. The second record must come out exactly as it does when it is
+// evaluated alone (nothing remembered from the first, whatever state the first left the stage in).
+type c06SeqInput struct {
+	First  string `json:"first"`
+	Second string `json:"second"`
+	Stage  string `json:"stage"` // full stage text
+}
+
+func c06SeqCheck(r *vkit.Run, in c06SeqInput) bool {
+	r.Begin("C06/sequence", in)
+	q := "{} | " + in.Stage
+	both := evalLog([]mockq.Rec{{TS: 1 * sec, Line: in.First}, {TS: 2 * sec, Line: in.Second}}, logqlengine.QuerierCapabilities{}, q, -1)
+	alone := evalLog([]mockq.Rec{{TS: 2 * sec, Line: in.Second}}, logqlengine.QuerierCapabilities{}, q, -1)
+	r.Eval()
+	r.Eval()
+	r.Step(3)
+	fail := func(why string) {
+		r.Fail("C06/sequence", in, nil, both.brief(), alone.brief(), fmt.Sprintf("%s over %q then %q: %s", q, in.First, in.Second, why), "")
+	}
+	if both.Panic != "" || both.Err != "" || alone.Panic != "" || alone.Err != "" {
+		fail("evaluation failed: " + fmt.Sprint(both.brief(), alone.brief()))
+		return false
+	}
+	if len(alone.Entries) != 1 || len(both.Entries) != 2 {
+		fail(fmt.Sprintf("%d and %d entries returned for 2 and 1 records: a parser stage never removes a line", len(both.Entries), len(alone.Entries)))
+		return false
+	}
+	var second *outEntry
+	for i := range both.Entries {
+		if both.Entries[i].TS == 2*sec {
+			second = &both.Entries[i]
+		}
+	}
+	if second == nil {
+		fail("the second record is missing")
+		return false
+	}
+	a := alone.Entries[0]
+	if second.Line != a.Line || second.Labels.Key() != a.Labels.Key() {
+		fail(fmt.Sprintf("the second record comes out as %q %s, alone it comes out as %q %s", second.Line, second.Labels.Key(), a.Line, a.Labels.Key()))
+		return false
+	}
+	return true
 }
 
 func c06Check(r *vkit.Run, in c06Input) bool {
@@ -309,7 +357,7 @@ type c06Val struct {
 	json string // JSON text of the value
 }
 
-var c06JSONVals = []string{`"v"`, `""`, `"q\"x"`, `"two\nlines"`, `"é"`, `5`, `-3`, `1.5`, `1.50`, `true`, `false`, `null`, `{"c":"d"}`, `[1,"x"]`, `{"c":7,"e":[true]}`, `1e3`, `[null,1]`, `{"c":[{"d":null}]}`}
+var c06JSONVals = []string{`"v"`, `""`, `"q\"x"`, `"two\nlines"`, `"é"`, `5`, `-3`, `1.5`, `1.50`, `true`, `false`, `null`, `{"c":"d"}`, `[1,"x"]`, `{"c":7,"e":[true]}`, `1e3`, `[null,1]`, `{"c":[{"d":null}]}`, `9007199254740993`, `-9223372036854775808`}
 var c06JSONKeys = []string{"a", "b", "a.b", "x y"}
 
 func c06Scalar(v string) bool {
@@ -447,6 +495,44 @@ func c06Run(r *vkit.Run) {
 		}
 	}
 	r.Note("json_path_cases", fmt.Sprint(nPathCases))
+	// sequences: a first record that leaves the stage in an odd state (malformed at some nesting depth, cut, empty,
+	// not of the format) followed by a well-formed one: the second comes out as it does alone
+	firsts := []string{`{"b":{"c":`, `{"b":[{"c":`, `{"a":{"b":{"c":1`, `{"b":[1,`, `{"b":[[1,2],[`, `{"a":"v","b":{"c":"w"}`, `{"a":"old","b":{"c":"old"},"x":`, "not json", "", `{`, `{"a":`,
+		`a="unterminated`, `a=1 b="x`, `{"_entry":"e","k":`, `[1,2`, `{"b":{"c":"keep"}}`, `a=first b=first`, `GET first`}
+	seconds := []string{`{"a":"v","b":{"c":"w"}}`, `{"b":["s0",["s1"],"s2"]}`, `{"a":"v"}`, `{"b":{"c":{"d":"deep"}},"a":1}`, `a=v b=w`, `b=only`, `GET /x`, `{"_entry":"e2","k":"v"}`, `{}`, `x`}
+	seqStages := []string{`json`, `json a`, `json a, b`, `json x="b.c"`, `json x="b[1][0]"`, `json x="b[2]"`, `json x="b.c.d", y="a"`, `json y="a", x="b.c"`, `logfmt`, `logfmt a`, `logfmt x="b"`,
+		`regexp "(?P<m>\\w+) (?P<p>\\S+)"`, `pattern "<m> <p>"`, `unpack`}
+	for _, st := range seqStages {
+		for _, f := range firsts {
+			for _, sd := range seconds {
+				idx++
+				if !r.Mine(idx) || r.Stop() {
+					continue
+				}
+				if c06SeqCheck(r, c06SeqInput{First: f, Second: sd, Stage: st}) {
+					r.NonTrivial()
+				}
+				r.State("seq" + st + f + sd)
+			}
+		}
+	}
+	// wide documents: more fields than any small-map / small-slice threshold (9, 17, 65, 300 fields)
+	for _, nf := range []int{9, 17, 65, 300} {
+		var jp, lp []string
+		for k := 0; k < nf; k++ {
+			jp = append(jp, fmt.Sprintf("%q:%q", fmt.Sprintf("k%d", k), fmt.Sprintf("v%d", k)))
+			lp = append(lp, fmt.Sprintf("k%d=v%d", k, k))
+		}
+		jdoc := "{" + strings.Join(jp, ",") + `,"a":"last","b":{"c":"w"}}`
+		ldoc := strings.Join(lp, " ") + " a=last b=w"
+		for _, st := range []string{"json", "json a", `json x="b.c"`, fmt.Sprintf("json k%d, a", nf-1)} {
+			visit(c06Input{Line: jdoc, Pre: true, Stage: st, Kind: "wellformed", Parser: "json"})
+		}
+		for _, st := range []string{"logfmt", "logfmt a", `logfmt x="a"`} {
+			visit(c06Input{Line: ldoc, Pre: true, Stage: st, Kind: "wellformed", Parser: "logfmt"})
+		}
+		visit(c06Input{Line: jdoc[:len(jdoc)-1], Pre: true, Stage: "json", Kind: "prefix", Parser: "json"})
+	}
 	// logfmt: records of <= 3 pairs over keys {a,b,k_1} x values
 	lfVals := []string{"v", "", `"with space"`, `"q\"x"`, "5", `"é"`, `"a=b"`, "x.y/z"}
 	var lfDocs []string
@@ -533,10 +619,17 @@ func c06Run(r *vkit.Run) {
 		}
 	}
 	visit(c06Input{Line: "not json", Stage: "unpack", Kind: "prefix", Parser: "unpack"})
-	r.Note("bounds", fmt.Sprintf("JSON: %d documents (<=%d fields over keys {a,b,a.b,'x y'} x 16 values incl. escapes, numbers, booleans, null, nested; duplicate keys; two whitespace styles) x 8 json forms x with/without pre-existing labels, every strict prefix of a subset; path expressions: every nested document of depth <= 2 (arrays of <= 3, objects of <= 2; thorough: depth 3 over the small subtrees) with distinct leaves x every leaf path, every ordered pair of leaf paths in one stage, every inner path and every path one past the end; logfmt: %d records x 4 forms + 7 malformed; regexp: 4 patterns x 16 lines; pattern: 4 patterns x 25 value pairs; unpack: 30 packed entries and all their strict prefixes", len(docs), maxFields, len(lfDocs)))
+	r.Note("bounds", fmt.Sprintf("JSON: %d documents (<=%d fields over keys {a,b,a.b,'x y'} x 20 values incl. escapes, numbers (also integers beyond 2^53), booleans, null, nested; duplicate keys; two whitespace styles) x 8 json forms x with/without pre-existing labels, every strict prefix of a subset; path expressions: every nested document of depth <= 2 (arrays of <= 3, objects of <= 2; thorough: depth 3 over the small subtrees) with distinct leaves x every leaf path, every ordered pair of leaf paths in one stage, every inner path and every path one past the end; logfmt: %d records x 4 forms + 7 malformed; regexp: 4 patterns x 16 lines; pattern: 4 patterns x 25 value pairs; unpack: 30 packed entries and all their strict prefixes; sequences: 18 first records (malformed at several depths, cut, empty, other format) x 10 second records x 14 stages, the second record compared with its evaluation alone", len(docs), maxFields, len(lfDocs)))
 }
 
 func c06Replay(r *vkit.Run, v vkit.Violation) *vkit.Violation {
+	if v.Check == "C06/sequence" {
+		var in c06SeqInput
+		if err := vkit.DecodeInput(v, &in); err != nil {
+			r.HarnessError("bad input: %v", err)
+		}
+		return vkit.ReplayOne(r, func() { c06SeqCheck(r, in) })
+	}
 	var in c06Input
 	if err := vkit.DecodeInput(v, &in); err != nil {
 		r.HarnessError("bad input: %v", err)
